@@ -100,8 +100,43 @@ def gen_ops(rng, nctor, nops):
             ops.append(("child", rng.randrange(nctx)))
         nctx += 1
 
+    def families():
+        """two (or three) parent chains with the same names bound at equal depth, children of the parents in an order
+        in which NON-adjacent members share a parent, and a multi-context over them (in that order)"""
+        nonlocal nctx
+        if nctx == 0:
+            ops.append(("plain", None))
+            nctx += 1
+        roots = []
+        for _ in range(rng.choice([2, 2, 3])):
+            base = rng.randrange(nctx) if rng.random() < 0.5 else None
+            ops.append(("plain", base))
+            roots.append(nctx)
+            nctx += 1
+            for nm in rng.sample(NAMES, 3):
+                ops.append(("set", roots[-1], nm, rng.randrange(1, 50)))
+            if rng.random() < 0.5:                       # one more level with the same names
+                ops.append(("child", roots[-1]))
+                roots[-1] = nctx
+                nctx += 1
+                ops.append(("set", roots[-1], rng.choice(NAMES), rng.randrange(1, 50)))
+        pattern = rng.choice([[0, 1, 0], [0, 1, 0, 1], [0, 0, 1, 0], [1, 0, 1], [0, 1, 2 % len(roots), 0], [0, 1, 1, 0]])
+        members = []
+        for r in pattern:
+            ops.append(("child", roots[r % len(roots)]))
+            members.append(nctx)
+            nctx += 1
+        ops.append(("multi", members))
+        nctx += 1
+        if rng.random() < 0.5:
+            ops.append(("child", nctx - 1))
+            nctx += 1
+
     for _ in range(nctor):
-        ctor()
+        if rng.random() < 0.12 and nctx < 9:
+            families()
+        else:
+            ctor()
         # sprinkle writes between constructions so that structure is built over live data
         if rng.random() < 0.5:
             ops.append(("set", rng.randrange(nctx), rng.choice(NAMES), rng.randrange(1, 50)))
